@@ -213,6 +213,17 @@ def main():
             if not isinstance(a, dict) or b is None:
                 continue
             d = circ.direct_diff(a, b)
+            if d is None:
+                # pins named oe*: the enable output of a negative register, observed directly.  It is the stall condition of
+                # the compensated pipeline register (an input pin, or constant '1'): no register lies between the inputs and
+                # this pin in either variant, so it must be IDENTICAL (definedness included) in every cycle
+                for c, ((_, oa, _), (_, ob, _)) in enumerate(zip(a["cycles"], b["cycles"])):
+                    for k, (pn, _) in enumerate(a["pins_out"]):
+                        if pn.startswith("oe") and k < len(ob) and oa[k] != ob[k]:
+                            d = dict(kind="enable output of a negative register differs from the stall condition of the compensated register",
+                                     cycle=c, pin=pn, ref=oa[k], hinted=ob[k])
+                            break
+                    if d: break
             exact_cycles += sum(1 for x, y in zip(a["cycles"], b["cycles"]) if x[1] == y[1])
             if d and i not in direct:
                 direct[i] = (d, circ.stim_of(a))
